@@ -125,10 +125,22 @@ fn check_processes(src: &Sources, runs: usize, st: &mut Stats) -> Vec<Violation>
     let mut first: Option<String> = None;
     for i in 0..runs {
         let target = format!("out{i}.yaml");
-        // the last target already exists and holds another, longer document (a target is normally regenerated)
+        // the last target already exists (a target is normally regenerated) and holds another, longer document, or
+        // nearly the document to come: with CRLF line ends, without its final newline, or followed by bytes that are
+        // not UTF-8
         if i + 1 == runs {
-            let _ = std::fs::write(dir.path.join(&target), format!("previous: generation\nof: the target\npadding: \"{}\"\n", "x".repeat(60_000)));
-            st.inc("cli_runs_over_an_existing_longer_target");
+            let prev: Vec<u8> = match (crate::util::hash64(&src.files) % 4, &first) {
+                (1, Some(f)) => f.replace('\n', "\r\n").into_bytes(),
+                (2, Some(f)) => f.trim_end_matches('\n').as_bytes().to_vec(),
+                (3, Some(f)) => {
+                    let mut b = f.clone().into_bytes();
+                    b.extend_from_slice(b"\xff\xfe left over\n");
+                    b
+                }
+                _ => format!("previous: generation\nof: the target\npadding: \"{}\"\n", "x".repeat(60_000)).into_bytes(),
+            };
+            let _ = std::fs::write(dir.path.join(&target), prev);
+            st.inc("cli_runs_over_an_existing_target");
         }
         // same sources at the same locations, addressed from different working directories
         let r = match i % 4 {
